@@ -303,30 +303,65 @@ func main() {
 	if err := os.MkdirAll(outDir, 0o755); err != nil {
 		fatalf(token.NoPos, "%v", err)
 	}
-	router := parseDir(filepath.Join(repoRoot, "router"))
-	app := parseDir(filepath.Join(repoRoot, "app"))
-	ctxFields := structFields(router, "Context")
-	serve := genServe(router, ctxFields)
-	ctx := genCtx(router, app, ctxFields)
-	consts := genConsts()
-	guards := genGuards(router, parseDir(filepath.Join(repoRoot, "router", "route")))
-	writeIfChanged(filepath.Join(outDir, "Serve.lean"), serve)
-	writeIfChanged(filepath.Join(outDir, "Ctx.lean"), ctx)
-	writeIfChanged(filepath.Join(outDir, "Consts.lean"), consts)
-	writeIfChanged(filepath.Join(outDir, "Guards.lean"), guards)
+	// Each of the four original generators fails closed ON ITS OWN: when one of them meets a statement form it does
+	// not handle, its file is replaced by a stub that only carries the reason, so that exactly the Tie modules that
+	// import it stop building (C03/C08 for Serve and Ctx, C12 for Guards) and the other properties are not affected.
+	// (Gen/Consts.lean isolates per constant, see consts.go; the later generators record a `problem` themselves.)
+	var problems []string
+	isolated := func(file, ns string, gen func() string) {
+		content := func() (out string) {
+			defer func() {
+				if r := recover(); r != nil {
+					fe, ok := r.(fatalErr)
+					if !ok {
+						panic(r)
+					}
+					problems = append(problems, file+": "+fe.msg)
+					out = "/- GENERATED by extract/ — the extractor FAILED CLOSED on the current source; every theorem that needs this file stops checking. -/\nnamespace " + ns + "\n\n/-- why nothing was generated -/\ndef extractProblem : String := " + leanStr(fe.msg) + "\n\nend " + ns + "\n"
+				}
+			}()
+			return gen()
+		}()
+		writeIfChanged(filepath.Join(outDir, file), content)
+	}
+	var router, app *pkg
+	var ctxFields []string
+	parsed := func() {
+		if router == nil {
+			router = parseDir(filepath.Join(repoRoot, "router"))
+			app = parseDir(filepath.Join(repoRoot, "app"))
+			ctxFields = structFields(router, "Context")
+		}
+	}
+	isolated("Serve.lean", "Rivaas.Gen.Serve", func() string { parsed(); return genServe(router, ctxFields) })
+	isolated("Ctx.lean", "Rivaas.Gen.Ctx", func() string { parsed(); return genCtx(router, app, ctxFields) })
+	isolated("Consts.lean", "Rivaas.Gen.Consts", genConsts)
+	isolated("Guards.lean", "Rivaas.Gen.Guards", func() string {
+		parsed()
+		return genGuards(router, parseDir(filepath.Join(repoRoot, "router", "route")))
+	})
+	defer func() {
+		// one line per problem for ./check (it quotes them when a Tie module stops building); never an exit code
+		// that would take unrelated properties down
+		problems = append(problems, constProblems...)
+		writeIfChanged(filepath.Join(outDir, "PROBLEMS.txt"), strings.Join(problems, "\n"))
+		for _, p := range problems {
+			fmt.Fprintln(os.Stderr, "extract: failing closed: "+p)
+		}
+	}()
 	// C09 (extract/lifecycle.go): never exits; a problem is recorded inside the generated file
 	writeIfChanged(filepath.Join(outDir, "Lifecycle.lean"), genLifecycle(repoRoot))
-	writeIfChanged(filepath.Join(outDir, "BindFacts.lean"), genBindFacts(repoRoot)) // C04 (extract/bindfacts.go): never exits
-	writeIfChanged(filepath.Join(outDir, "ConfigLoad.lean"), genConfigLoad(repoRoot)) // C14 (extract/configload.go): never exits
+	writeIfChanged(filepath.Join(outDir, "BindFacts.lean"), genBindFacts(repoRoot))         // C04 (extract/bindfacts.go): never exits
+	writeIfChanged(filepath.Join(outDir, "ConfigLoad.lean"), genConfigLoad(repoRoot))       // C14 (extract/configload.go): never exits
 	writeIfChanged(filepath.Join(outDir, "OpenAPIRanges.lean"), genOpenAPIRanges(repoRoot)) // C07 (extract/oaranges.go): never exits
 	// C15 / C17 (extract/compress.go, extract/gates.go, walker extract/mwskel.go): never exit either
 	writeIfChanged(filepath.Join(outDir, "Compress.lean"), genCompress(repoRoot))
 	writeIfChanged(filepath.Join(outDir, "Gates.lean"), genGates(repoRoot))
-	writeIfChanged(filepath.Join(outDir, "Version.lean"), genVersion(repoRoot)) // C13 (extract/version.go): never exits
-	writeIfChanged(filepath.Join(outDir, "ObsApp.lean"), genObsApp(repoRoot)) // C08 app layer (extract/obsapp.go): never exits
-	writeIfChanged(filepath.Join(outDir, "Routing.lean"), genRouting(repoRoot)) // C01 / C11 (extract/routing.go): never exits
+	writeIfChanged(filepath.Join(outDir, "Version.lean"), genVersion(repoRoot))       // C13 (extract/version.go): never exits
+	writeIfChanged(filepath.Join(outDir, "ObsApp.lean"), genObsApp(repoRoot))         // C08 app layer (extract/obsapp.go): never exits
+	writeIfChanged(filepath.Join(outDir, "Routing.lean"), genRouting(repoRoot))       // C01 / C11 (extract/routing.go): never exits
 	writeIfChanged(filepath.Join(outDir, "ChainFacts.lean"), genChainFacts(repoRoot)) // C02 / C10 (extract/chainfacts.go): never exits
-	writeIfChanged(filepath.Join(outDir, "Logging.lean"), genLogging(repoRoot)) // C20 (extract/logging.go): never exits
-	writeIfChanged(filepath.Join(outDir, "ErrFmt.lean"), genErrFmt(repoRoot)) // C06 (extract/errfmt.go, extract/flatfacts.go): never exits
+	writeIfChanged(filepath.Join(outDir, "Logging.lean"), genLogging(repoRoot))       // C20 (extract/logging.go): never exits
+	writeIfChanged(filepath.Join(outDir, "ErrFmt.lean"), genErrFmt(repoRoot))         // C06 (extract/errfmt.go, extract/flatfacts.go): never exits
 	writeIfChanged(filepath.Join(outDir, "Validation.lean"), genValidation(repoRoot)) // C05 (extract/validation.go): never exits
 }
